@@ -229,7 +229,12 @@ func (db *DB) loadFile(path, pkg string) error {
 			}
 			for _, inst := range schemaUpdateLists {
 				for k := i; k < j; k++ {
-					t := strings.NewReplacer("$LIST", inst[0], "$F", inst[1], "$ELEM", inst[2]).Replace(raws[k].text)
+					// $C04: the property tag C04 for element types with a changeability flag, an inert tag otherwise
+					elem, c04 := inst[2], "C04none"
+					if strings.HasSuffix(elem, "|wc") {
+						elem, c04 = strings.TrimSuffix(elem, "|wc"), "C04"
+					}
+					t := strings.NewReplacer("$LIST", inst[0], "$F", inst[1], "$ELEM", elem, "$C04", c04).Replace(raws[k].text)
 					exp = append(exp, rawClause{t, raws[k].line})
 				}
 				exp = append(exp, rawClause{"end", raws[i].line})
@@ -451,9 +456,12 @@ func (db *DB) parseClause(text, file string, line int, pkg string, cur **FuncCon
 			i = 2
 		}
 		srcI, keepI := -1, -1
+		srcOld := false
 		for k := i; k < len(fsx); k++ {
-			if fsx[k] == "src" && srcI < 0 {
+			if (fsx[k] == "src" || fsx[k] == "srcold") && srcI < 0 {
+				// srcold: the elements are read in the function's pre-state (for sources that are updated in place)
 				srcI = k
+				srcOld = fsx[k] == "srcold"
 			}
 			if fsx[k] == "keep" {
 				keepI = k
@@ -464,14 +472,20 @@ func (db *DB) parseClause(text, file string, line int, pkg string, cur **FuncCon
 		}
 		src := strings.Join(fsx[srcI+1:keepI], " ")
 		keep := strings.Join(fsx[keepI+1:], " ")
+		el := func(ix string) string {
+			if srcOld {
+				return fmt.Sprintf("old((%s)[%s])", src, ix)
+			}
+			return fmt.Sprintf("(%s)[%s]", src, ix)
+		}
 		gen := []string{
 			fmt.Sprintf("spec %scnt(j int) int", nm),
 			fmt.Sprintf("spec %sidx(m int) int", nm),
 			fmt.Sprintf("%s %scnt(0) == 0", where, nm),
-			fmt.Sprintf("%s forall j int :: {%scnt(j), %scnt(j+1)} 0 <= j && j < len(%s) ==> %scnt(j+1) == %scnt(j) + ite(%s((%s)[j]), 1, 0)", where, nm, nm, src, nm, nm, keep, src),
+			fmt.Sprintf("%s forall j int :: {%scnt(j), %scnt(j+1)} 0 <= j && j < len(%s) ==> %scnt(j+1) == %scnt(j) + ite(%s(%s), 1, 0)", where, nm, nm, src, nm, nm, keep, el("j")),
 			fmt.Sprintf("%s forall a int, b int :: {%scnt(a), %scnt(b)} 0 <= a && a <= b && b <= len(%s) ==> 0 <= %scnt(a) && %scnt(a) <= %scnt(b) && %scnt(b) - %scnt(a) <= b - a", where, nm, nm, src, nm, nm, nm, nm, nm),
-			fmt.Sprintf("%s forall a int, b int :: {%scnt(a), %scnt(b)} 0 <= a && a < b && b <= len(%s) && %s((%s)[a]) ==> %scnt(a) < %scnt(b)", where, nm, nm, src, keep, src, nm, nm),
-			fmt.Sprintf("%s forall m int :: {%sidx(m)} 0 <= m && m < %scnt(len(%s)) ==> 0 <= %sidx(m) && %sidx(m) < len(%s) && %s((%s)[%sidx(m)]) && %scnt(%sidx(m)) == m", where, nm, nm, src, nm, nm, src, keep, src, nm, nm, nm),
+			fmt.Sprintf("%s forall a int, b int :: {%scnt(a), %scnt(b)} 0 <= a && a < b && b <= len(%s) && %s(%s) ==> %scnt(a) < %scnt(b)", where, nm, nm, src, keep, el("a"), nm, nm),
+			fmt.Sprintf("%s forall m int :: {%sidx(m)} 0 <= m && m < %scnt(len(%s)) ==> 0 <= %sidx(m) && %sidx(m) < len(%s) && %s(%s) && %scnt(%sidx(m)) == m", where, nm, nm, src, nm, nm, src, keep, el(nm+"idx(m)"), nm, nm),
 		}
 		for _, g := range gen {
 			if err := db.parseClause(g, file, line, pkg, cur); err != nil {
